@@ -367,6 +367,22 @@ func (e *Engine) havocLoopWrites(st *State, fr *Frame, li *loopInfo) {
 	for _, af := range fr.fn.AnonFuncs {
 		e.scanFuncWrites(fr, af, w, fr.env)
 	}
+	e.havocWriteSet(st, fr, w)
+	// iterators
+	for it := range st.iter {
+		if r, ok := it.(*ssa.Range); ok && li.blocks[r.Block()] == false {
+			// iterator created outside, advanced inside
+			el := st.iter[it]
+			st.iter[it] = e.ctx.Fresh("visited_lp", el.Sort)
+			st.iterCount[it] = e.ctx.Fresh("niter_lp", SInt)
+			st.Assume(Le(IntLit(0), st.iterCount[it]))
+			st.iterMod[it] = e.ctx.Fresh("itermod_lp", SBool)
+		}
+	}
+}
+
+// havocWriteSet forgets everything in a write set.
+func (e *Engine) havocWriteSet(st *State, fr *Frame, w *writeSet) {
 	if w.all {
 		e.havocAllHeaps(st)
 	}
@@ -441,17 +457,6 @@ func (e *Engine) havocLoopWrites(st *State, fr *Frame, li *loopInfo) {
 	sort.Strings(hvs)
 	for _, name := range hvs {
 		e.havocLog(st, name)
-	}
-	// iterators
-	for it := range st.iter {
-		if r, ok := it.(*ssa.Range); ok && li.blocks[r.Block()] == false {
-			// iterator created outside, advanced inside
-			el := st.iter[it]
-			st.iter[it] = e.ctx.Fresh("visited_lp", el.Sort)
-			st.iterCount[it] = e.ctx.Fresh("niter_lp", SInt)
-			st.Assume(Le(IntLit(0), st.iterCount[it]))
-			st.iterMod[it] = e.ctx.Fresh("itermod_lp", SBool)
-		}
 	}
 	e.havocGhost(st, w)
 }
@@ -659,8 +664,10 @@ func (e *Engine) scanContractWrites(callee *ssa.Function, c *Contract, cc *ssa.C
 			}
 		case strings.HasPrefix(a, "*"):
 			// in/out pointer parameter: handled by the caller through the argument
-		case a == "maps":
+		case a == "maps", strings.HasPrefix(a, "map("):
 			w.maps = true
+		case strings.HasPrefix(a, "ghost("):
+			w.ghost = true
 		case a == "heap":
 			w.all = true
 		case strings.HasPrefix(a, "fields("):
@@ -936,6 +943,7 @@ func (e *Engine) execSimple(st *State, fr *Frame, in ssa.Instruction, b *ssa.Bas
 			st.next = e.nameTerm(st, "next", Add(st.next, IntLit(1)))
 			pv := Val{T: resolve(x.Type(), fr.env), L: []Term{ref}}
 			e.storeLoc(st, e.locOf(pv), e.zeroVal(t))
+			e.initAbstract(st, pv, t, 0)
 			fr.regs[x] = pv
 		}
 	case *ssa.BinOp:
